@@ -227,7 +227,7 @@ def gen_cases(tier, seed):
             cases.append(dict(mode='convert', shape=A.shape_desc([kv], [p], False, 3, 'coded')))
             for wk in ('coded', 'spike'):
                 cases.append(dict(mode='scale_weights', shape=A.shape_desc([kv], [p], True, 3, 'coded', wk)))
-            for wk in ('coded', 'spike', 'le1', 'seeded'):
+            for wk in ('coded', 'spike', 'le1', 'seeded', 'mean1', 'arc'):
                 cases.append(dict(mode='convert_rational', shape=A.shape_desc([kv], [p], True, 3, 'coded', wk)))
     d2 = [1, 2] if q else [1, 2, 3]
     for pu, pv in itertools.product(d2, d2):
@@ -237,7 +237,7 @@ def gen_cases(tier, seed):
                     continue
                 cases.append(dict(mode='convert', shape=A.shape_desc([ku, kv], [pu, pv], False, 3, 'coded')))
                 cases.append(dict(mode='scale_weights', shape=A.shape_desc([ku, kv], [pu, pv], True, 3, 'coded', 'coded')))
-                for wk in ('le1', 'spike'):
+                for wk in ('le1', 'spike', 'mean1'):
                     cases.append(dict(mode='convert_rational', shape=A.shape_desc([ku, kv], [pu, pv], True, 3, 'coded', wk)))
     for pu, pv, pw in itertools.product([1, 2], repeat=3):
         ku, kv, kw = A.rep_kvs(pu, 1)[1], A.rep_kvs(pv, 1)[0], A.rep_kvs(pw, 1)[2]
